@@ -149,4 +149,864 @@ theorem packFFGo_bounds : ∀ (l cur : List β) (cb cc : Nat), cb = total br cur
 
 end FF
 
+/-! ## the packing step shared by compile_scc and the main loop -/
+section PackSec
+variable {β : Type}
+
+/-- everything packed so far, in order -/
+def flat (p : Pack β) : List β := p.out.flatten ++ p.cur
+
+/-- the five ways one packing step can go (three of them flush) -/
+theorem stepWith_cases (first : Nat → Nat → Bool) (p : Pack β) (r : Nat) (b : β) :
+    (p.cb = 0 ∧ first (p.cb + r) (p.cc + (if r > 0 then 1 else 0)) = true ∧
+      stepWith first p r b = ⟨[], 0, 0, p.out ++ [p.cur ++ [b]]⟩) ∨
+    (p.cb = 0 ∧ first (p.cb + r) (p.cc + (if r > 0 then 1 else 0)) = false ∧
+      stepWith first p r b = ⟨p.cur ++ [b], p.cb + r, p.cc + (if r > 0 then 1 else 0), p.out⟩) ∨
+    (p.cb ≠ 0 ∧ r = 0 ∧ stepWith first p r b = ⟨[b], 0, 0, p.out ++ [p.cur]⟩) ∨
+    (p.cb ≠ 0 ∧ r ≠ 0 ∧ (p.cb + r + r ≥ brFactor ∨ p.cc + 1 + 1 ≥ blkFactor) ∧
+      stepWith first p r b = ⟨[], 0, 0, p.out ++ [p.cur ++ [b]]⟩) ∨
+    (p.cb ≠ 0 ∧ r ≠ 0 ∧ ¬ (p.cb + r + r ≥ brFactor ∨ p.cc + 1 + 1 ≥ blkFactor) ∧
+      stepWith first p r b = ⟨p.cur ++ [b], p.cb + r, p.cc + 1, p.out⟩) := by
+  by_cases h0 : p.cb = 0
+  · cases hf : first (p.cb + r) (p.cc + (if r > 0 then 1 else 0))
+    · right; left
+      have hf' := hf; rw [h0] at hf'; simp only [Nat.zero_add] at hf'
+      exact ⟨h0, rfl, by simp [stepWith, h0, hf']⟩
+    · left
+      have hf' := hf; rw [h0] at hf'; simp only [Nat.zero_add] at hf'
+      exact ⟨h0, rfl, by simp [stepWith, h0, hf']⟩
+  · by_cases hr : r = 0
+    · right; right; left; exact ⟨h0, hr, by simp [stepWith, h0, hr]⟩
+    · have hpos : r > 0 := Nat.pos_of_ne_zero hr
+      by_cases hc : p.cb + r + r ≥ brFactor ∨ p.cc + 1 + 1 ≥ blkFactor
+      · right; right; right; left; exact ⟨h0, hr, hc, by simp only [stepWith, h0, hr, hpos, if_true, if_false]; simp [hc]⟩
+      · right; right; right; right; exact ⟨h0, hr, hc, by simp only [stepWith, h0, hr, hpos, if_true, if_false]; simp [hc]⟩
+
+theorem stepWith_flat (first : Nat → Nat → Bool) (p : Pack β) (r : Nat) (b : β) :
+    flat (stepWith first p r b) = flat p ++ [b] := by
+  rcases stepWith_cases first p r b with ⟨_, _, h⟩ | ⟨_, _, h⟩ | ⟨_, _, h⟩ | ⟨_, _, _, h⟩ | ⟨_, _, _, h⟩ <;>
+    rw [h] <;> simp [flat]
+
+/-- no emitted meta block is empty, and a non-zero `cur_br` means `cur_meta` is not empty -/
+def PackOK (p : Pack β) : Prop := (∀ m ∈ p.out, m ≠ []) ∧ (p.cb ≠ 0 → p.cur ≠ [])
+
+theorem packOK_empty : PackOK (Pack.empty : Pack β) := ⟨by simp [Pack.empty], by simp [Pack.empty]⟩
+
+theorem stepWith_ok (first : Nat → Nat → Bool) (p : Pack β) (r : Nat) (b : β) (h : PackOK p) :
+    PackOK (stepWith first p r b) := by
+  obtain ⟨h1, h2⟩ := h
+  have hout : ∀ c : List β, c ≠ [] → ∀ m ∈ p.out ++ [c], m ≠ [] := by
+    intro c hc m hm
+    rcases List.mem_append.mp hm with hm | hm
+    · exact h1 m hm
+    · simp at hm; subst hm; exact hc
+  rcases stepWith_cases first p r b with ⟨_, _, h⟩ | ⟨_, _, h⟩ | ⟨hcb, _, h⟩ | ⟨_, _, _, h⟩ | ⟨_, _, _, h⟩ <;> rw [h]
+  · exact ⟨hout _ (by simp), by simp⟩
+  · exact ⟨h1, by simp⟩
+  · exact ⟨hout _ (h2 hcb), by simp⟩
+  · exact ⟨hout _ (by simp), by simp⟩
+  · exact ⟨h1, by simp⟩
+
+theorem finish_flatten (p : Pack β) : (finish p).flatten = flat p := by
+  unfold finish flat; split
+  · next h => simp [List.isEmpty_iff.mp h]
+  · simp
+
+theorem finish_nonempty (p : Pack β) (h : PackOK p) : ∀ m ∈ finish p, m ≠ [] := by
+  unfold finish; split
+  · exact h.1
+  · next hc =>
+    intro m hm
+    rcases List.mem_append.mp hm with hm | hm
+    · exact h.1 m hm
+    · simp at hm; subst hm; intro h2; simp [h2] at hc
+
+theorem foldl_sccStep (br : β → Nat) : ∀ (l : List β) (p : Pack β), PackOK p →
+    flat (l.foldl (sccStep br) p) = flat p ++ l ∧ PackOK (l.foldl (sccStep br) p)
+  | [], p, h => by simp [h]
+  | b :: rest, p, h => by
+    have := foldl_sccStep br rest (sccStep br p b) (stepWith_ok _ _ _ _ h)
+    rw [List.foldl_cons]
+    refine ⟨?_, this.2⟩
+    rw [this.1]; unfold sccStep; rw [stepWith_flat]; simp
+
+theorem packSCCOn_flatten (br : β → Nat) (l : List β) : (packSCCOn br l).flatten = l := by
+  unfold packSCCOn; split
+  · simp
+  · rw [finish_flatten, (foldl_sccStep br l _ packOK_empty).1]; simp [flat, Pack.empty]
+
+theorem packSCCOn_nonempty (br : β → Nat) (l : List β) (hl : l ≠ []) : ∀ m ∈ packSCCOn br l, m ≠ [] := by
+  unfold packSCCOn; split
+  · intro m hm; simp at hm; subst hm; exact hl
+  · exact finish_nonempty _ (foldl_sccStep br l _ packOK_empty).2
+
+/-! ### bounds -/
+variable (rf : β → Nat)
+
+theorem total_zero_branchy : ∀ l : List β, total rf l = 0 → branchy rf l = 0
+  | [], _ => rfl
+  | x :: xs, h => by
+    have h' : rf x + total rf xs = 0 := by simpa [total] using h
+    have ih := total_zero_branchy xs (by omega)
+    have hx : rf x = 0 := by omega
+    have : branchy rf (x :: xs) = branchy rf [x] + branchy rf xs := by
+      rw [← branchy_append]; rfl
+    rw [this, ih, branchy_single]; simp [hx]
+
+/-- invariant of the packing state that yields the bounds: `cur_br` / `cur_count` are the sum / the number of branchy
+members of `cur_meta`, `cur_br < 20`, `cur_count <= 4`, and every emitted meta block is within `GroupOK … 5` -/
+structure BInv (p : Pack β) : Prop where
+  cb_eq : p.cb = total rf p.cur
+  cc_eq : p.cc = branchy rf p.cur
+  cb_lt : p.cb < brFactor
+  cc_le : p.cc ≤ 4
+  out_ok : ∀ m ∈ p.out, GroupOK rf 5 m
+
+theorem binv_empty : BInv rf (Pack.empty : Pack β) :=
+  ⟨rfl, rfl, by simp [Pack.empty, brFactor], by simp [Pack.empty], by simp [Pack.empty]⟩
+
+theorem stepWith_binv (first : Nat → Nat → Bool) (hfirst : ∀ cb cc, first cb cc = false → cb < brFactor)
+    (p : Pack β) (r : Nat) (b : β) (hr : r = rf b) (h : BInv rf p) : BInv rf (stepWith first p r b) := by
+  obtain ⟨h1, h2, h3, h4, h5⟩ := h
+  have hout : ∀ c : List β, GroupOK rf 5 c → ∀ m ∈ p.out ++ [c], GroupOK rf 5 m := by
+    intro c hc m hm
+    rcases List.mem_append.mp hm with hm | hm
+    · exact h5 m hm
+    · simp at hm; subst hm; exact hc
+  have hone : branchy rf [b] ≤ 1 := by rw [branchy_single]; split <;> omega
+  have hbr : branchy rf [b] = if r > 0 then 1 else 0 := by rw [branchy_single, hr]
+  rcases stepWith_cases first p r b with ⟨hcb, _, h⟩ | ⟨hcb, hf, h⟩ | ⟨hcb, hr0, h⟩ | ⟨hcb, hr0, hc, h⟩ | ⟨hcb, hr0, hc, h⟩ <;> rw [h]
+  · have hz : branchy rf p.cur = 0 := total_zero_branchy rf _ (by omega)
+    refine ⟨rfl, rfl, by simp [brFactor], by simp, hout _ ⟨?_, p.cur, b, rfl, by omega⟩⟩
+    rw [branchy_append]; omega
+  · have hz : branchy rf p.cur = 0 := total_zero_branchy rf _ (by omega)
+    have := hfirst _ _ hf
+    refine ⟨by simp [h1, hr], by rw [branchy_append, ← h2, hbr], this, ?_, h5⟩
+    show p.cc + _ ≤ 4
+    split <;> omega
+  · refine ⟨by simp [← hr, hr0], by simp [branchy_single, ← hr, hr0], by simp [brFactor], by simp, hout _ ?_⟩
+    have hne : p.cur ≠ [] := by intro h0; rw [h0] at h1; simp at h1; exact hcb h1
+    exact groupOK_of_small rf hne (by omega) (by omega)
+  · refine ⟨rfl, rfl, by simp [brFactor], by simp, hout _ ⟨?_, p.cur, b, rfl, by omega⟩⟩
+    rw [branchy_append]; omega
+  · have hpos : r > 0 := Nat.pos_of_ne_zero hr0
+    refine ⟨by simp [h1, hr], by rw [branchy_append, ← h2, hbr]; simp [hpos], ?_, ?_, h5⟩
+    · show p.cb + r < brFactor
+      simp only [brFactor, blkFactor] at *; omega
+    · show p.cc + 1 ≤ 4
+      simp only [brFactor, blkFactor] at *; omega
+
+theorem finish_bounds (p : Pack β) (_hok : PackOK p) (h : BInv rf p) : ∀ m ∈ finish p, GroupOK rf 5 m := by
+  unfold finish; split
+  · exact h.out_ok
+  · next hc =>
+    intro m hm
+    rcases List.mem_append.mp hm with hm | hm
+    · exact h.out_ok m hm
+    · simp at hm; subst hm
+      exact groupOK_of_small rf (by intro h2; simp [h2] at hc) (by have := h.cc_eq; have := h.cc_le; omega)
+        (by have := h.cb_eq; have := h.cb_lt; omega)
+
+theorem sccFirst_lt (cb cc : Nat) (h : sccFirst cb cc = false) : cb < brFactor := by
+  unfold sccFirst at h; simp at h; omega
+theorem mainFirst_lt (cb cc : Nat) (h : mainFirst cb cc = false) : cb < brFactor := by
+  unfold mainFirst at h; simp at h; omega
+
+theorem foldl_sccStep_binv : ∀ (l : List β) (p : Pack β), BInv rf p → BInv rf (l.foldl (sccStep rf) p)
+  | [], _, h => h
+  | b :: rest, p, h => by
+    rw [List.foldl_cons]
+    exact foldl_sccStep_binv rest _ (stepWith_binv rf _ sccFirst_lt p _ b rfl h)
+
+theorem packSCCOn_bounds (l : List β) (hl : 10 ≤ l.length) : ∀ m ∈ packSCCOn rf l, GroupOK rf 5 m := by
+  unfold packSCCOn; split
+  · omega
+  · exact finish_bounds rf _ (foldl_sccStep rf l _ packOK_empty).2 (foldl_sccStep_binv rf l _ (binv_empty rf))
+
+end PackSec
+
+/-! ## insert_sortedlist -/
+section InsertSec
+
+theorem bsearch_le (arr : List QE) (key : Key) : ∀ (fuel lo right : Nat), right ≤ arr.length →
+    bsearch arr key fuel lo right ≤ arr.length
+  | 0, _, _, h => h
+  | fuel + 1, lo, right, h => by
+    unfold bsearch; split
+    · dsimp only; split
+      · exact h
+      · split
+        · exact bsearch_le arr key fuel _ _ h
+        · exact bsearch_le arr key fuel _ _ (by omega)
+    · exact h
+
+theorem insertSorted_perm (arr : List QE) (key : Key) (item : Nat) :
+    (insertSorted arr key item).Perm ((key, item) :: arr) :=
+  List.perm_insertIdx _ _ (bsearch_le arr key _ _ _ (Nat.le_refl _))
+
+theorem keyLe_trans {a b c : Key} (h1 : keyLe a b = true) (h2 : keyLe b c = true) : keyLe a c = true := by
+  simp only [keyLe, Bool.or_eq_true, decide_eq_true_eq, Bool.and_eq_true, beq_iff_eq] at *
+  omega
+
+theorem keyLe_total {a b : Key} (h : keyLe a b = false) : keyLe b a = true := by
+  simp only [keyLe, Bool.or_eq_true, decide_eq_true_eq, Bool.and_eq_true, beq_iff_eq, Bool.or_eq_false_iff,
+    decide_eq_false_iff_not, Bool.and_eq_false_iff, beq_eq_false_iff_ne] at *
+  omega
+
+/-- the queue is ordered by Python's `<=` on the keys `(br, -cnt)` -/
+def QSorted (q : List QE) : Prop := q.Pairwise (fun a b => keyLe a.1 b.1 = true)
+
+/-- on a sorted array the binary search returns the position after the last key `<=` the new key -/
+theorem bsearch_spec (arr : List QE) (key : Key) (hs : QSorted arr) : ∀ (fuel lo right : Nat),
+    lo ≤ right → right ≤ arr.length → right - lo ≤ fuel →
+    (∀ i (h : i < arr.length), i < lo → keyLe arr[i].1 key = true) →
+    (∀ i (h : i < arr.length), right ≤ i → keyLe arr[i].1 key = false) →
+    (∀ i (h : i < arr.length), i < bsearch arr key fuel lo right → keyLe arr[i].1 key = true) ∧
+    (∀ i (h : i < arr.length), bsearch arr key fuel lo right ≤ i → keyLe arr[i].1 key = false)
+  | 0, lo, right, h1, _, h3, h4, h5 => by
+    have : lo = right := by omega
+    subst this
+    exact ⟨h4, h5⟩
+  | fuel + 1, lo, right, h1, h2, h3, h4, h5 => by
+    unfold bsearch; split
+    · next hlt =>
+      have hmid : (lo + right - 1) / 2 < arr.length := by omega
+      dsimp only
+      rw [List.getElem?_eq_getElem hmid]
+      dsimp only
+      have hpw := List.pairwise_iff_getElem.mp hs
+      split
+      · next hk =>
+        refine bsearch_spec arr key hs fuel _ _ (by omega) h2 (by omega) ?_ h5
+        intro i hi hlt'
+        by_cases him : i = (lo + right - 1) / 2
+        · subst him; exact hk
+        · exact keyLe_trans (hpw i _ hi hmid (by omega)) hk
+      · next hk =>
+        have hk' : keyLe arr[(lo + right - 1) / 2].1 key = false := by simpa using hk
+        refine bsearch_spec arr key hs fuel _ _ (by omega) (by omega) (by omega) h4 ?_
+        intro i hi hge
+        by_cases him : i = (lo + right - 1) / 2
+        · subst him; exact hk'
+        · cases hik : keyLe arr[i].1 key
+          · rfl
+          · have := keyLe_trans (hpw _ i hmid hi (by omega)) hik
+            rw [this] at hk'; exact absurd hk' (by simp)
+    · next hge =>
+      have : lo = right := by omega
+      subst this
+      exact ⟨h4, h5⟩
+
+theorem insertIdx_take_drop {α : Type} (x : α) : ∀ (l : List α) (i : Nat), i ≤ l.length →
+    l.insertIdx i x = l.take i ++ x :: l.drop i
+  | l, 0, _ => by simp
+  | [], i + 1, h => by simp at h
+  | y :: ys, i + 1, h => by
+    rw [List.insertIdx_succ_cons, insertIdx_take_drop x ys i (by simpa using h)]
+    simp
+
+theorem insertSorted_sorted (arr : List QE) (key : Key) (item : Nat) (hs : QSorted arr) :
+    QSorted (insertSorted arr key item) := by
+  have hle := bsearch_le arr key arr.length 0 arr.length (Nat.le_refl _)
+  obtain ⟨hlo, hhi⟩ := bsearch_spec arr key hs arr.length 0 arr.length (Nat.zero_le _) (Nat.le_refl _) (by omega)
+    (by intro i _ h; omega) (by intro i h h'; omega)
+  unfold insertSorted QSorted
+  rw [insertIdx_take_drop _ _ _ hle]
+  generalize bsearch arr key arr.length 0 arr.length = idx at *
+  have hsplit : arr = arr.take idx ++ arr.drop idx := (List.take_append_drop idx arr).symm
+  have hs' : QSorted (arr.take idx ++ arr.drop idx) := by rw [← hsplit]; exact hs
+  obtain ⟨p1, p2, p3⟩ := List.pairwise_append.mp hs'
+  refine List.pairwise_append.mpr ⟨p1, List.pairwise_cons.mpr ⟨?_, p2⟩, ?_⟩
+  · intro e he
+    obtain ⟨j, hj, rfl⟩ := List.getElem_of_mem he
+    rw [List.getElem_drop]
+    have hj' : idx + j < arr.length := by simp at hj; omega
+    exact keyLe_total (hhi (idx + j) hj' (by omega))
+  · intro a ha b hb
+    have hak : keyLe a.1 key = true := by
+      obtain ⟨j, hj, rfl⟩ := List.getElem_of_mem ha
+      rw [List.getElem_take]
+      have hj' : j < idx ∧ j < arr.length := by simp at hj; omega
+      exact hlo j hj'.2 hj'.1
+    rcases List.mem_cons.mp hb with rfl | hb
+    · exact hak
+    · exact p3 a ha b hb
+
+end InsertSec
+
+/-! ## expand_node -/
+section ExpandSec
+variable {σ : Type} (push : σ → Nat → σ) (items : σ → List Nat)
+
+/-- `expand` subtracts from every `InD[w]` the number of occurrences of `w` in the successor list, and pushes exactly
+the vertices whose counter passes through zero, each once -/
+theorem expand_spec (hpush : ∀ s v, (items (push s v)).Perm (v :: items s)) :
+    ∀ (vs : List Nat) (ind : Nat → Int) (s : σ),
+      (∀ w, (expand push vs ind s).1 w = ind w - (vs.count w : Nat)) ∧
+      ∃ newly : List Nat, (items (expand push vs ind s).2).Perm (newly ++ items s) ∧ newly.Nodup ∧
+        ∀ w, w ∈ newly ↔ (1 ≤ ind w ∧ ind w ≤ (vs.count w : Nat))
+  | [], ind, s => by
+    refine ⟨by intro w; simp [expand], [], by simp [expand], List.nodup_nil, ?_⟩
+    intro w; simp; omega
+  | v :: vs, ind, s => by
+    unfold expand
+    dsimp only
+    have hcount : ∀ w, ((v :: vs).count w : Nat) = vs.count w + (if v = w then 1 else 0) := by
+      intro w; rw [List.count_cons]; simp
+    split
+    · next hd =>
+      obtain ⟨h1, newly, h2, h3, h4⟩ := expand_spec hpush vs (fun w => if w = v then ind v - 1 else ind w) (push s v)
+      refine ⟨?_, v :: newly, ?_, ?_, ?_⟩
+      · intro w; rw [h1 w, hcount w]
+        by_cases hw : w = v
+        · subst hw; simp; omega
+        · have : ¬ v = w := fun h => hw h.symm
+          simp [hw, this]
+      · exact h2.trans ((List.Perm.append_left newly (hpush s v)).trans (by simp))
+      · refine List.nodup_cons.mpr ⟨?_, h3⟩
+        intro hmem
+        have := (h4 v).mp hmem
+        simp only [if_true] at this
+        omega
+      · intro w
+        rw [List.mem_cons, h4 w, hcount w]
+        by_cases hw : w = v
+        · subst hw; simp; omega
+        · have : ¬ v = w := fun h => hw h.symm
+          simp [hw, this]
+    · next hd =>
+      obtain ⟨h1, newly, h2, h3, h4⟩ := expand_spec hpush vs (fun w => if w = v then ind v - 1 else ind w) s
+      refine ⟨?_, newly, h2, h3, ?_⟩
+      · intro w; rw [h1 w, hcount w]
+        by_cases hw : w = v
+        · subst hw; simp; omega
+        · have : ¬ v = w := fun h => hw h.symm
+          simp [hw, this]
+      · intro w
+        rw [h4 w, hcount w]
+        by_cases hw : w = v
+        · subst hw; simp; omega
+        · have : ¬ v = w := fun h => hw h.symm
+          simp [hw, this]
+
+theorem foldl_push_items (hpush : ∀ s v, (items (push s v)).Perm (v :: items s)) :
+    ∀ (l : List Nat) (s : σ), (items (l.foldl push s)).Perm (l ++ items s)
+  | [], s => by simp
+  | v :: vs, s => by
+    rw [List.foldl_cons]
+    exact (foldl_push_items hpush vs (push s v)).trans
+      ((List.Perm.append_left vs (hpush s v)).trans (by simp))
+
+end ExpandSec
+
+/-! ## the Kahn invariant shared by the two loops -/
+section GraphSec
+variable (G : Nat → List Nat) (n : Nat)
+
+/-- the edges of the condensation graph as pairs -/
+def edges : List (Nat × Nat) := (List.range n).flatMap (fun u => (G u).map (fun v => (u, v)))
+
+theorem mem_edges {u v : Nat} : (u, v) ∈ edges G n ↔ u < n ∧ v ∈ G u := by
+  simp only [edges, List.mem_flatMap, List.mem_range, List.mem_map, Prod.mk.injEq]
+  constructor
+  · rintro ⟨a, ha, b, hb, rfl, rfl⟩; exact ⟨ha, hb⟩
+  · rintro ⟨h1, h2⟩; exact ⟨u, h1, v, h2, rfl, rfl⟩
+
+/-- every successor is a vertex -/
+def WF : Prop := ∀ u, u < n → ∀ v ∈ G u, v < n
+
+/-- the condensation graph is acyclic: its vertices can be ranked so that every edge goes up -/
+def Acyclic : Prop := ∃ rank : Nat → Nat, ∀ u, u < n → ∀ v ∈ G u, rank u < rank v
+
+/-- number of edges into `v` from the vertices of `L` not yet scheduled -/
+def psum (L done : List Nat) (v : Nat) : Nat := (L.map (fun u => if u ∈ done then 0 else (G u).count v)).sum
+
+theorem psum_notin {u : Nat} (done : List Nat) (v : Nat) : ∀ L : List Nat, u ∉ L → psum G L (u :: done) v = psum G L done v
+  | [], _ => rfl
+  | x :: xs, h => by
+    have hx : x ≠ u := fun e => h (by simp [e])
+    have ih := psum_notin done v xs (fun e => h (List.mem_cons_of_mem _ e))
+    simp only [psum, List.map_cons, List.sum_cons, List.mem_cons] at ih ⊢
+    rw [ih]; simp [hx]
+
+theorem psum_cons {u : Nat} (done : List Nat) (v : Nat) (hd : u ∉ done) : ∀ L : List Nat, L.Nodup → u ∈ L →
+    psum G L done v = psum G L (u :: done) v + (G u).count v
+  | [], _, h => by simp at h
+  | x :: xs, hnd, h => by
+    obtain ⟨hx, hnd'⟩ := List.nodup_cons.mp hnd
+    by_cases hxu : x = u
+    · subst hxu
+      have := psum_notin G done v xs hx
+      simp only [psum, List.map_cons, List.sum_cons, List.mem_cons] at this ⊢
+      rw [this]; simp [hd]; omega
+    · have hu : u ∈ xs := by
+        rcases List.mem_cons.mp h with e | e
+        · exact absurd e.symm hxu
+        · exact e
+      have ih := psum_cons done v hd xs hnd' hu
+      simp only [psum, List.map_cons, List.sum_cons, List.mem_cons] at ih ⊢
+      rw [ih]; simp [hxu]; omega
+
+theorem psum_zero (done : List Nat) (v : Nat) : ∀ L : List Nat, psum G L done v = 0 → ∀ x ∈ L, x ∉ done → (G x).count v = 0
+  | [], _, x, hx, _ => by simp at hx
+  | y :: ys, h, x, hx, hd => by
+    simp only [psum, List.map_cons, List.sum_cons] at h
+    rcases List.mem_cons.mp hx with rfl | hx
+    · simp [hd] at h; omega
+    · exact psum_zero done v ys (by simp only [psum]; omega) x hx hd
+
+theorem psum_pos (done : List Nat) (v : Nat) : ∀ L : List Nat, psum G L done v ≠ 0 → ∃ x ∈ L, x ∉ done ∧ v ∈ G x
+  | [], h => by simp [psum] at h
+  | y :: ys, h => by
+    simp only [psum, List.map_cons, List.sum_cons] at h
+    by_cases hy : (if y ∈ done then 0 else (G y).count v) = 0
+    · obtain ⟨x, hx, h1, h2⟩ := psum_pos done v ys (by simp only [psum]; omega)
+      exact ⟨x, by simp [hx], h1, h2⟩
+    · refine ⟨y, by simp, ?_, ?_⟩
+      · intro hd; simp [hd] at hy
+      · by_cases hd : y ∈ done
+        · simp [hd] at hy
+        · simp [hd] at hy; exact List.count_pos_iff.mp (by omega)
+
+/-- `InD[v]` as it should be: the number of edges into `v` whose source has not been scheduled yet -/
+def pend (done : List Nat) (v : Nat) : Int := (psum G (List.range n) done v : Nat)
+
+theorem initInD_eq (v : Nat) : initInD G n v = pend G n [] v := by
+  simp [initInD, pend, psum]
+
+open PV.Kahn in
+/-- invariant of a Kahn-style loop with work list `W`, counters `ind` and the (reversed) output `done` -/
+structure KInv (W : List Nat) (ind : Nat → Int) (done : List Nat) : Prop where
+  lt : ∀ x ∈ done, x < n
+  wnd : W.Nodup
+  ind_eq : ∀ v, v < n → ind v = pend G n done v
+  w_iff : ∀ v, v ∈ W ↔ (v < n ∧ v ∉ done ∧ ind v = 0)
+  good : Good (edges G n) done
+
+theorem good_pred {E : List (Nat × Nat)} : ∀ {done : List Nat}, PV.Kahn.Good E done → ∀ e ∈ E, e.2 ∈ done → e.1 ∈ done
+  | [], _, _, _, h => by simp at h
+  | x :: xs, hg, e, he, h => by
+    obtain ⟨_, hp, hg'⟩ := hg
+    rcases List.mem_cons.mp h with h | h
+    · exact List.mem_cons_of_mem _ (hp e he h)
+    · exact List.mem_cons_of_mem _ (good_pred hg' e he h)
+
+/-- one iteration: `u` is taken from the work list, the counters of its successors are decremented, the vertices
+whose counter reaches zero join the work list -/
+theorem kinv_step (hwf : WF G n) {W W₁ W' newly done : List Nat} {ind ind' : Nat → Int} {u : Nat}
+    (h : KInv G n W ind done) (hW : W.Perm (u :: W₁))
+    (hind' : ∀ w, ind' w = ind w - ((G u).count w : Nat))
+    (hW' : W'.Perm (newly ++ W₁)) (hnd : newly.Nodup)
+    (hnew : ∀ w, w ∈ newly ↔ (1 ≤ ind w ∧ ind w ≤ ((G u).count w : Nat))) :
+    KInv G n W' ind' (u :: done) := by
+  have huW : u ∈ W := hW.mem_iff.mpr (by simp)
+  obtain ⟨hun, hud, hu0⟩ := (h.w_iff u).mp huW
+  have hW1 : (u :: W₁).Nodup := hW.nodup_iff.mp h.wnd
+  obtain ⟨huW1, hW1nd⟩ := List.nodup_cons.mp hW1
+  have hpend : ∀ v, pend G n done v = pend G n (u :: done) v + ((G u).count v : Nat) := by
+    intro v
+    have := psum_cons G done v hud (List.range n) List.nodup_range (List.mem_range.mpr hun)
+    simp only [pend]; omega
+  have hind_eq' : ∀ v, v < n → ind' v = pend G n (u :: done) v := by
+    intro v hv; rw [hind' v, h.ind_eq v hv, hpend v]; omega
+  have hnn : ∀ v, 0 ≤ pend G n (u :: done) v := by intro v; simp only [pend]; omega
+  have hmemW1 : ∀ w, w ∈ W₁ ↔ (w ∈ W ∧ w ≠ u) := by
+    intro w
+    rw [hW.mem_iff, List.mem_cons]
+    constructor
+    · intro hw; exact ⟨Or.inr hw, fun e => huW1 (e ▸ hw)⟩
+    · rintro ⟨hw | hw, hne⟩
+      · exact absurd hw hne
+      · exact hw
+  refine ⟨?_, ?_, hind_eq', ?_, ?_⟩
+  · intro x hx
+    rcases List.mem_cons.mp hx with rfl | hx
+    · exact hun
+    · exact h.lt x hx
+  · refine hW'.nodup_iff.mpr (List.nodup_append.mpr ⟨hnd, hW1nd, ?_⟩)
+    intro a ha b hb hab
+    subst hab
+    have h1 := (hnew a).mp ha
+    have h2 := (h.w_iff a).mp ((hmemW1 a).mp hb).1
+    omega
+  · intro w
+    rw [hW'.mem_iff, List.mem_append, hnew w, hmemW1 w, h.w_iff w, List.mem_cons]
+    constructor
+    · rintro (⟨h1, h2⟩ | ⟨⟨h1, h2, h3⟩, h4⟩)
+      · have hwG : w ∈ G u := List.count_pos_iff.mp (by omega)
+        have hwn : w < n := hwf u hun w hwG
+        have hne : w ≠ u := by intro e; subst e; omega
+        have hwd : w ∉ done := by
+          intro hd
+          exact hud (good_pred h.good (u, w) ((mem_edges G n).mpr ⟨hun, hwG⟩) hd)
+        have := hind_eq' w hwn
+        have := hnn w
+        have := hind' w
+        exact ⟨hwn, by simp [hne, hwd], by omega⟩
+      · have := hind_eq' w h1
+        have := hnn w
+        have := hind' w
+        exact ⟨h1, by simp [h4, h2], by omega⟩
+    · rintro ⟨h1, h2, h3⟩
+      have hne : w ≠ u := fun e => h2 (Or.inl e)
+      have hwd : w ∉ done := fun e => h2 (Or.inr e)
+      have := hind' w
+      by_cases h0 : ind w = 0
+      · exact Or.inr ⟨⟨h1, hwd, h0⟩, hne⟩
+      · have := h.ind_eq w h1
+        have : 0 ≤ pend G n done w := by simp only [pend]; omega
+        exact Or.inl ⟨by omega, by omega⟩
+  · refine ⟨hud, ?_, h.good⟩
+    intro e he he2
+    obtain ⟨a, b⟩ := e
+    simp only at he2 ⊢
+    subst he2
+    obtain ⟨han, hb⟩ := (mem_edges G n).mp he
+    by_cases had : a ∈ done
+    · exact had
+    · exfalso
+      have h0 : psum G (List.range n) done b = 0 := by
+        have := h.ind_eq b hun
+        simp only [pend] at this; omega
+      have := psum_zero G done b (List.range n) h0 a (List.mem_range.mpr han) had
+      have := List.count_pos_iff.mpr hb
+      omega
+
+/-- the start: nothing scheduled, the work list holds the vertices without incoming edge -/
+theorem kinv_init {W : List Nat} (hW : W.Perm ((List.range n).filter (fun v => initInD G n v == 0))) :
+    KInv G n W (initInD G n) [] := by
+  refine ⟨by simp, ?_, fun v _ => initInD_eq G n v, ?_, trivial⟩
+  · exact hW.nodup_iff.mpr (List.nodup_range.filter _)
+  · intro v
+    rw [hW.mem_iff, List.mem_filter, List.mem_range]
+    simp
+
+/-- when the work list is empty every vertex left over has a predecessor left over -/
+theorem kinv_leftover {ind : Nat → Int} {done : List Nat} (h : KInv G n [] ind done) :
+    ∀ v, v < n → v ∉ done → ∃ u, u < n ∧ u ∉ done ∧ v ∈ G u := by
+  intro v hv hd
+  have h0 : ind v ≠ 0 := by
+    intro e
+    have := (h.w_iff v).mpr ⟨hv, hd, e⟩
+    simp at this
+  have hp : psum G (List.range n) done v ≠ 0 := by
+    have := h.ind_eq v hv
+    simp only [pend] at this; omega
+  obtain ⟨x, hx, h1, h2⟩ := psum_pos G done v (List.range n) hp
+  exact ⟨x, List.mem_range.mp hx, h1, h2⟩
+
+/-- in an acyclic graph nothing can be left over -/
+theorem acyclic_all (hac : Acyclic G n) {done : List Nat}
+    (hleft : ∀ v, v < n → v ∉ done → ∃ u, u < n ∧ u ∉ done ∧ v ∈ G u) : ∀ v, v < n → v ∈ done := by
+  obtain ⟨rank, hrank⟩ := hac
+  have key : ∀ k v, rank v = k → v < n → v ∈ done := by
+    intro k
+    induction k using Nat.strongRecOn with
+    | _ k ih =>
+      intro v hk hv
+      by_cases hd : v ∈ done
+      · exact hd
+      · obtain ⟨u, hu, hud, hvu⟩ := hleft v hv hd
+        have := hrank u hu v hvu
+        exact absurd (ih (rank u) (by omega) u rfl hu) hud
+  intro v hv
+  exact key (rank v) v rfl hv
+
+theorem kinv_done_le {W : List Nat} {ind : Nat → Int} {done : List Nat} (h : KInv G n W ind done) : done.length ≤ n := by
+  have hnd := PV.Kahn.good_nodup' (edges G n) done h.good
+  have := List.Nodup.length_le_of_subset hnd (l₂ := List.range n) (fun x hx => List.mem_range.mpr (h.lt x hx))
+  simpa using this
+
+/-- a full output leaves the work list empty -/
+theorem kinv_full {W : List Nat} {ind : Nat → Int} {done : List Nat} (h : KInv G n W ind done) (hfull : n ≤ done.length) :
+    W = [] := by
+  cases W with
+  | nil => rfl
+  | cons u W₁ =>
+    exfalso
+    obtain ⟨hun, hud, _⟩ := (h.w_iff u).mp (by simp)
+    have hnd := PV.Kahn.good_nodup' (edges G n) done h.good
+    have hnd' : (u :: done).Nodup := List.nodup_cons.mpr ⟨hud, hnd⟩
+    have := List.Nodup.length_le_of_subset hnd' (l₂ := List.range n) (fun x hx => by
+      rcases List.mem_cons.mp hx with rfl | hx
+      · exact List.mem_range.mpr hun
+      · exact List.mem_range.mpr (h.lt x hx))
+    simp at this; omega
+
+/-- the conclusions drawn from the invariant at the end, on the output in execution order -/
+theorem kinv_order {W : List Nat} {ind : Nat → Int} {done : List Nat} (h : KInv G n W ind done) :
+    done.reverse.Nodup ∧ (∀ x ∈ done.reverse, x < n) ∧
+    ∀ u v, u < n → v ∈ G u → v ∈ done.reverse → ∃ pre post, done.reverse = pre ++ u :: post ∧ v ∈ post := by
+  have hnd := PV.Kahn.good_nodup' (edges G n) done h.good
+  refine ⟨List.pairwise_reverse.mpr (hnd.imp (fun h => Ne.symm h)), fun x hx => h.lt x (List.mem_reverse.mp hx), ?_⟩
+  intro u v hu hv hin
+  obtain ⟨pre, post, hpp, hmem⟩ := PV.Kahn.good_order (edges G n) done h.good (u, v) ((mem_edges G n).mpr ⟨hu, hv⟩)
+    (List.mem_reverse.mp hin)
+  obtain ⟨p1, p2, hp12⟩ := List.append_of_mem hmem
+  refine ⟨p2.reverse, p1.reverse ++ v :: pre.reverse, ?_, by simp⟩
+  rw [hpp, hp12]
+  simp [List.reverse_append]
+
+end GraphSec
+
+/-! ## Mamba2020Pass.schedule_intra_cycle -/
+section MambaLoopSec
+variable (G : Nat → List Nat) (kb : Nat → Nat) (n : Nat)
+
+/-- the SCC ids waiting in the queue -/
+def qitems (s : List QE × Nat) : List Nat := s.1.map Prod.snd
+
+theorem push_items (s : List QE × Nat) (v : Nat) : (qitems (push kb s v)).Perm (v :: qitems s) := by
+  unfold push qitems
+  exact (insertSorted_perm _ _ _).map Prod.snd
+
+theorem popQ_some {cb : Nat} {q q' : List QE} {e : QE} (h : popQ cb q = some (e, q')) : q.Perm (e :: q') := by
+  unfold popQ at h
+  split at h
+  · split at h
+    · simp at h
+    · simp only [Option.some.injEq, Prod.mk.injEq] at h; obtain ⟨rfl, rfl⟩ := h; exact .refl _
+  · split at h
+    · simp at h
+    · next e' he =>
+      simp only [Option.some.injEq, Prod.mk.injEq] at h; obtain ⟨rfl, rfl⟩ := h
+      obtain ⟨ys, rfl⟩ := List.getLast?_eq_some_iff.mp he
+      rw [List.dropLast_concat]
+      exact List.perm_append_singleton _ _
+
+theorem popQ_none {cb : Nat} {q : List QE} (h : popQ cb q = none) : q = [] := by
+  unfold popQ at h
+  split at h
+  · split at h
+    · rfl
+    · simp at h
+  · split at h
+    · next he => exact List.getLast?_eq_none_iff.mp he
+    · simp at h
+
+/-- every queue entry carries the key branchiness of its item -/
+def QKey (q : List QE) : Prop := ∀ e ∈ q, e.1.1 = kb e.2
+
+theorem expand_preserves {σ : Type} (push : σ → Nat → σ) (P : σ → Prop) (hP : ∀ s v, P s → P (push s v)) :
+    ∀ (vs : List Nat) (ind : Nat → Int) (s : σ), P s → P (expand push vs ind s).2
+  | [], _, _, h => h
+  | v :: vs, ind, s, h => by
+    unfold expand; dsimp only; split
+    · exact expand_preserves push P hP vs _ _ (hP s v h)
+    · exact expand_preserves push P hP vs _ _ h
+
+theorem push_qkey (s : List QE × Nat) (v : Nat) (h : QKey kb s.1) : QKey kb (push kb s v).1 := by
+  intro e he
+  rcases List.mem_cons.mp ((insertSorted_perm _ _ _).mem_iff.mp he) with rfl | he
+  · rfl
+  · exact h e he
+
+/-- loop invariant: the Kahn invariant on (queue items, InD, reversed flattened schedule), well-formed packing state,
+packing bounds, queue keys -/
+structure MInv (s : MSt) : Prop where
+  kinv : KInv G n (s.q.map Prod.snd) s.ind (flat s.pk).reverse
+  ok : PackOK s.pk
+  binv : BInv kb s.pk
+  qkey : QKey kb s.q
+
+theorem mamba_step (hwf : WF G n) (s : MSt) (h : MInv G kb n s) {r c u : Nat} {q' : List QE}
+    (hp : popQ s.pk.cb s.q = some (((r, c), u), q')) :
+    MInv G kb n ⟨(expand (push kb) (G u) s.ind (q', s.cnt)).2.1, (expand (push kb) (G u) s.ind (q', s.cnt)).1,
+      (expand (push kb) (G u) s.ind (q', s.cnt)).2.2, mainStep s.pk r u⟩ := by
+  have hperm := popQ_some hp
+  have hr : r = kb u := h.qkey ((r, c), u) (hperm.mem_iff.mpr (by simp))
+  have hq' : QKey kb q' := fun e he => h.qkey e (hperm.mem_iff.mpr (List.mem_cons_of_mem _ he))
+  obtain ⟨h1, newly, h2, h3, h4⟩ := expand_spec (push kb) qitems (push_items kb) (G u) s.ind (q', s.cnt)
+  refine ⟨?_, stepWith_ok _ _ _ _ h.ok, stepWith_binv kb _ mainFirst_lt _ _ _ hr h.binv, ?_⟩
+  · show KInv G n _ _ (flat (stepWith mainFirst s.pk r u)).reverse
+    rw [stepWith_flat, List.reverse_append]
+    exact kinv_step G n hwf h.kinv (hperm.map Prod.snd) h1 h2 h3 h4
+  · exact expand_preserves (push kb) (fun s => QKey kb s.1) (push_qkey kb) (G u) s.ind (q', s.cnt) hq'
+
+theorem mambaLoop_inv (hwf : WF G n) : ∀ (fuel : Nat) (s : MSt), MInv G kb n s → MInv G kb n (mambaLoop G kb fuel s)
+  | 0, _, h => h
+  | fuel + 1, s, h => by
+    unfold mambaLoop; split
+    · exact h
+    · next r c u q' hp => exact mambaLoop_inv hwf fuel _ (mamba_step G kb n hwf s h hp)
+
+theorem mambaLoop_q (hwf : WF G n) : ∀ (fuel : Nat) (s : MSt), MInv G kb n s → n ≤ fuel + (flat s.pk).length →
+    (mambaLoop G kb fuel s).q = []
+  | 0, s, h, hl => by
+    have := kinv_full G n h.kinv (by simpa using hl)
+    exact List.map_eq_nil_iff.mp this
+  | fuel + 1, s, h, hl => by
+    unfold mambaLoop; split
+    · next hp => exact popQ_none hp
+    · next r c u q' hp =>
+      refine mambaLoop_q hwf fuel _ (mamba_step G kb n hwf s h hp) ?_
+      show n ≤ fuel + (flat (stepWith mainFirst s.pk r u)).length
+      rw [stepWith_flat]; simp; omega
+
+theorem mambaInit_inv : MInv G kb n (mambaInit G kb n) := by
+  unfold mambaInit
+  refine ⟨?_, packOK_empty, binv_empty kb, ?_⟩
+  · show KInv G n _ (initInD G n) (flat (Pack.empty : Pack Nat)).reverse
+    have hp := foldl_push_items (push kb) qitems (push_items kb)
+      ((List.range n).filter (fun v => initInD G n v == 0)) ([], 0)
+    have : (flat (Pack.empty : Pack Nat)).reverse = [] := by simp [flat, Pack.empty]
+    rw [this]
+    exact kinv_init G n (by simpa [qitems] using hp)
+  · show QKey kb _
+    suffices hgen : ∀ (l : List Nat) (s : List QE × Nat), QKey kb s.1 → QKey kb (l.foldl (push kb) s).1 from
+      hgen _ _ (by intro e he; simp at he)
+    intro l
+    induction l with
+    | nil => intro s h; exact h
+    | cons v vs ih => intro s h; exact ih _ (push_qkey kb s v h)
+
+theorem mambaLoop_succ_none {k : Nat} {s : MSt} (h : popQ s.pk.cb s.q = none) : mambaLoop G kb (k + 1) s = s := by
+  rw [mambaLoop]; simp [h]
+
+theorem mambaLoop_succ_some {k : Nat} {s : MSt} {r c u : Nat} {q' : List QE}
+    (h : popQ s.pk.cb s.q = some (((r, c), u), q')) :
+    mambaLoop G kb (k + 1) s = mambaLoop G kb k ⟨(expand (push kb) (G u) s.ind (q', s.cnt)).2.1,
+      (expand (push kb) (G u) s.ind (q', s.cnt)).1, (expand (push kb) (G u) s.ind (q', s.cnt)).2.2, mainStep s.pk r u⟩ := by
+  rw [mambaLoop]; simp [h]
+
+/-- once the queue is empty the loop does nothing more -/
+theorem mambaLoop_stable : ∀ (k : Nat) (s : MSt), s.q = [] → mambaLoop G kb k s = s
+  | 0, _, _ => rfl
+  | k + 1, s, h => by
+    apply mambaLoop_succ_none
+    rw [h]; unfold popQ; split <;> rfl
+
+theorem mambaLoop_add : ∀ (a b : Nat) (s : MSt), mambaLoop G kb (a + b) s = mambaLoop G kb b (mambaLoop G kb a s)
+  | 0, b, s => by simp [mambaLoop]
+  | a + 1, b, s => by
+    rw [show a + 1 + b = (a + b) + 1 by omega]
+    cases hp : popQ s.pk.cb s.q with
+    | none =>
+      rw [mambaLoop_succ_none G kb hp, mambaLoop_succ_none G kb hp, mambaLoop_stable G kb b s (popQ_none hp)]
+    | some x =>
+      obtain ⟨⟨⟨r, c⟩, u⟩, q'⟩ := x
+      rw [mambaLoop_succ_some G kb hp, mambaLoop_succ_some G kb hp]
+      exact mambaLoop_add a b _
+
+end MambaLoopSec
+
+/-! ## HeuristicTopoPass.schedule_intra_cycle -/
+section HeuSec
+variable (G : Nat → List Nat) (le : Nat → Nat → Bool) (n : Nat)
+
+theorem popMin_none : ∀ {q : List Nat}, popMin le q = none → q = []
+  | [], _ => rfl
+  | x :: xs, h => by
+    unfold popMin at h
+    split at h
+    · simp at h
+    · split at h <;> simp at h
+
+theorem popMin_some : ∀ {q q' : List Nat} {u : Nat}, popMin le q = some (u, q') → q.Perm (u :: q')
+  | [], _, _, h => by simp [popMin] at h
+  | x :: xs, q', u, h => by
+    unfold popMin at h
+    split at h
+    · next hn =>
+      simp only [Option.some.injEq, Prod.mk.injEq] at h; obtain ⟨rfl, rfl⟩ := h
+      rw [popMin_none le hn]
+    · next m rest hs =>
+      have ih := popMin_some hs
+      split at h
+      · simp only [Option.some.injEq, Prod.mk.injEq] at h; obtain ⟨rfl, rfl⟩ := h; exact .refl _
+      · simp only [Option.some.injEq, Prod.mk.injEq] at h; obtain ⟨rfl, rfl⟩ := h
+        exact (ih.cons x).trans (.swap _ _ _)
+
+/-- the element popped is a minimum of the queue w.r.t. `le` when `le` is total and transitive -/
+theorem popMin_min (htot : ∀ a b, le a b = false → le b a = true) (htr : ∀ a b c, le a b = true → le b c = true → le a c = true) :
+    ∀ {q q' : List Nat} {u : Nat}, popMin le q = some (u, q') → ∀ x ∈ q, le u x = true
+  | [], _, _, h => by simp [popMin] at h
+  | y :: ys, q', u, h => by
+    unfold popMin at h
+    have hrefl : ∀ a, le a a = true := by
+      intro a
+      by_cases hh : le a a = true
+      · exact hh
+      · exact htot a a (by simpa using hh)
+    split at h
+    · next hn =>
+      simp only [Option.some.injEq, Prod.mk.injEq] at h; obtain ⟨rfl, rfl⟩ := h
+      rw [popMin_none le hn]
+      intro x hx; simp at hx; subst hx; exact hrefl _
+    · next m rest hs =>
+      have ih := popMin_min htot htr hs
+      split at h
+      · next hle =>
+        simp only [Option.some.injEq, Prod.mk.injEq] at h; obtain ⟨rfl, rfl⟩ := h
+        intro x hx
+        rcases List.mem_cons.mp hx with rfl | hx
+        · exact hrefl _
+        · exact htr _ _ _ hle (ih x hx)
+      · next hle =>
+        simp only [Option.some.injEq, Prod.mk.injEq] at h; obtain ⟨rfl, rfl⟩ := h
+        intro x hx
+        rcases List.mem_cons.mp hx with rfl | hx
+        · exact htot _ _ (by simpa using hle)
+        · exact ih x hx
+
+theorem heuPush_items (q : List Nat) (v : Nat) : (id (heuPush q v)).Perm (v :: id q) := .refl _
+
+theorem heu_step (hwf : WF G n) (s : HSt) (h : KInv G n s.q s.ind s.out.reverse) {u : Nat} {q' : List Nat}
+    (hp : popMin le s.q = some (u, q')) :
+    KInv G n (expand heuPush (G u) s.ind q').2 (expand heuPush (G u) s.ind q').1 (s.out ++ [u]).reverse := by
+  obtain ⟨h1, newly, h2, h3, h4⟩ := expand_spec heuPush id heuPush_items (G u) s.ind q'
+  rw [List.reverse_append]
+  exact kinv_step G n hwf h (popMin_some le hp) h1 h2 h3 h4
+
+theorem heuLoop_inv (hwf : WF G n) : ∀ (fuel : Nat) (s : HSt), KInv G n s.q s.ind s.out.reverse →
+    KInv G n (heuLoop G le fuel s).q (heuLoop G le fuel s).ind (heuLoop G le fuel s).out.reverse
+  | 0, _, h => h
+  | fuel + 1, s, h => by
+    unfold heuLoop; split
+    · exact h
+    · next u q' hp => exact heuLoop_inv hwf fuel _ (heu_step G le n hwf s h hp)
+
+theorem heuLoop_q (hwf : WF G n) : ∀ (fuel : Nat) (s : HSt), KInv G n s.q s.ind s.out.reverse →
+    n ≤ fuel + s.out.length → (heuLoop G le fuel s).q = []
+  | 0, s, h, hl => kinv_full G n h (by simpa using hl)
+  | fuel + 1, s, h, hl => by
+    unfold heuLoop; split
+    · next hp => exact popMin_none le hp
+    · next u q' hp =>
+      refine heuLoop_q hwf fuel _ (heu_step G le n hwf s h hp) ?_
+      show n ≤ fuel + (s.out ++ [u]).length
+      simp; omega
+
+theorem heuInit_inv : KInv G n (heuInit G n).q (heuInit G n).ind (heuInit G n).out.reverse := by
+  unfold heuInit
+  have hp := foldl_push_items heuPush id heuPush_items ((List.range n).filter (fun v => initInD G n v == 0)) []
+  exact kinv_init G n (by simpa using hp)
+
+theorem heuLoop_succ_none {k : Nat} {s : HSt} (h : popMin le s.q = none) : heuLoop G le (k + 1) s = s := by
+  rw [heuLoop]; simp [h]
+
+theorem heuLoop_succ_some {k : Nat} {s : HSt} {u : Nat} {q' : List Nat} (h : popMin le s.q = some (u, q')) :
+    heuLoop G le (k + 1) s = heuLoop G le k ⟨(expand heuPush (G u) s.ind q').2, (expand heuPush (G u) s.ind q').1, s.out ++ [u]⟩ := by
+  rw [heuLoop]; simp [h]
+
+theorem heuLoop_stable : ∀ (k : Nat) (s : HSt), s.q = [] → heuLoop G le k s = s
+  | 0, _, _ => rfl
+  | k + 1, s, h => by
+    apply heuLoop_succ_none
+    rw [h]; rfl
+
+theorem heuLoop_add : ∀ (a b : Nat) (s : HSt), heuLoop G le (a + b) s = heuLoop G le b (heuLoop G le a s)
+  | 0, b, s => by simp [heuLoop]
+  | a + 1, b, s => by
+    rw [show a + 1 + b = (a + b) + 1 by omega]
+    cases hp : popMin le s.q with
+    | none =>
+      rw [heuLoop_succ_none G le hp, heuLoop_succ_none G le hp, heuLoop_stable G le b s (popMin_none le hp)]
+    | some x =>
+      obtain ⟨u, q'⟩ := x
+      rw [heuLoop_succ_some G le hp, heuLoop_succ_some G le hp]
+      exact heuLoop_add a b _
+
+end HeuSec
+
 end PV.Mamba
